@@ -52,6 +52,9 @@ class Recorder:
                     self.stack.pop()
                 node.out = list(out)
                 node.big_endian = bool(kw.get("big_endian"))
+                if node.big_endian:
+                    # normalise the record to the little-endian view of operands and result
+                    node.a, node.b, node.out = node.a[::-1], node.b[::-1], node.out[::-1]
                 return out
 
             setattr(mod, name, wrapper)
@@ -202,13 +205,13 @@ def karatsuba_true_width(p, mode, n, m, max_leaf_bits=16, leaf_timeout_ms=120000
     return probs, stats
 
 
-def square_true_width(p, n, max_leaf_bits=16, leaf_timeout_ms=120000):
+def square_true_width(p, n, max_leaf_bits=16, leaf_timeout_ms=120000, big_endian=False):
     """add_square at a width where it splits: result == aa + (ab << (mid+1)) + (bb << 2*mid)."""
     c = Circuit.bare_circuit(n)
     x = list(c.inputs)
     with Recorder([(SQ, "add_square", "rec"), (SQ, "add_square_pow2_m1", "leafsq"), (SQ, "add_mul_karatsuba", "mul")]) as R:
-        out = SQ.add_square(c, x)
-    root = R.roots[0]
+        out = SQ.add_square(c, x[::-1] if big_endian else x, big_endian=big_endian)
+    root = R.roots[0]  # recorded in the little-endian view (see Recorder)
     stats = {"gates": len(c.gates)}
     if len(root.children) != 3:
         return [f"square {n}: the split branch was not taken"], stats
